@@ -456,7 +456,7 @@ pub fn rand_script(rng: &mut Rng, case: &mut Case, v: usize, range_len: usize) -
     };
     let n = n.min(12);
     (0..n)
-        .map(|_| Step { back: rng.chance(1, 2), sink: if rng.chance(1, 3) { rand_sink(rng, case, v) } else { Sink::DROP } })
+        .map(|_| Step { back: rng.chance(1, 2), sink: if rng.chance(1, 3) { rand_sink(rng, case, v) } else { Sink::DROP }, skip: if rng.chance(1, 6) { 1 + rng.below(2) as u8 } else { 0 } })
         .collect()
 }
 
@@ -733,7 +733,7 @@ pub fn choice_strings(r: usize, extra: usize, all: bool) -> Vec<Vec<bool>> {
 }
 
 fn to_steps(bits: &[bool], sinks: &[Sink]) -> Vec<Step> {
-    bits.iter().enumerate().map(|(i, b)| Step { back: *b, sink: sinks[i % sinks.len()] }).collect()
+    bits.iter().enumerate().map(|(i, b)| Step { back: *b, sink: sinks[i % sinks.len()], skip: 0 }).collect()
 }
 
 pub fn range_ops(case: &mut Case, n: usize, full: bool) -> Vec<Vec<Op>> {
@@ -780,6 +780,28 @@ pub fn range_ops(case: &mut Case, n: usize, full: bool) -> Vec<Vec<Op>> {
                 }
             }
         }
+        // nth / nth_back / mixed with next: the iterator consumes the skipped items itself
+        if r >= 2 {
+            for (pattern, typed) in [(0usize, false), (1, false), (2, false), (0, true), (1, true)] {
+                let mut st: Vec<Step> = Vec::new();
+                match pattern {
+                    0 => {
+                        st.push(Step { back: false, sink: Sink::DOWNCAST, skip: 1 });
+                        st.push(Step { back: true, sink: Sink::DROP, skip: 0 });
+                    }
+                    1 => {
+                        st.push(Step { back: true, sink: Sink::DOWNCAST, skip: (r - 1).min(2) as u8 });
+                        st.push(Step { back: false, sink: Sink::DOWNCAST, skip: 0 });
+                    }
+                    _ => {
+                        st.push(Step { back: false, sink: Sink::DROP, skip: r.min(7) as u8 });
+                        st.push(Step { back: true, sink: Sink::DROP, skip: 1 });
+                    }
+                }
+                ops.push(Op::Drain { v: 0, lo: canon.0, hi: canon.1, typed, script: st.clone(), end: End::Drop });
+                ops.push(Op::Splice { v: 0, lo: canon.0, hi: canon.1, typed, repl: Repl::Wrappers(vec![case.fresh_id()]), script: st, end: End::Drop });
+            }
+        }
         // every other RangeBounds form denoting the same range
         for (lo, hi) in bound_forms(a, b, n) {
             if (lo, hi) == canon {
@@ -788,7 +810,7 @@ pub fn range_ops(case: &mut Case, n: usize, full: bool) -> Vec<Vec<Op>> {
             for typed in [false, true] {
                 ops.push(Op::Drain { v: 0, lo, hi, typed, script: vec![], end: End::Drop });
                 ops.push(Op::Drain { v: 0, lo, hi, typed, script: to_steps(&vec![false; r.min(6)], &[Sink::DOWNCAST]), end: End::Drop });
-                ops.push(Op::Splice { v: 0, lo, hi, typed, repl: Repl::Wrappers(vec![case.fresh_id()]), script: vec![Step { back: true, sink: Sink::DROP }], end: End::Drop });
+                ops.push(Op::Splice { v: 0, lo, hi, typed, repl: Repl::Wrappers(vec![case.fresh_id()]), script: vec![Step { back: true, sink: Sink::DROP, skip: 0 }], end: End::Drop });
             }
         }
         // splice: replacement lengths x kinds x a few consumption patterns
@@ -1061,7 +1083,7 @@ pub fn handle_ops(case: &mut Case, n: usize, full: bool) -> Vec<Vec<Op>> {
         for pre in [Pre::Inspect, Pre::Mutate(case.fresh_id()), Pre::SwapWrapper(case.fresh_id()), Pre::SwapRaw(case.fresh_id())] {
             seqs.push(vec![Op::Drain {
                 v: 0, lo: Bound::Included(at), hi: Bound::Unbounded, typed: false,
-                script: vec![Step { back: false, sink: Sink::new(pre, Fin::Downcast) }], end: End::Drop,
+                script: vec![Step { back: false, sink: Sink::new(pre, Fin::Downcast), skip: 0 }], end: End::Drop,
             }]);
         }
         // two writes through different views, read back through all
@@ -1126,7 +1148,7 @@ pub fn forget_ops(case: &mut Case, n: usize, full: bool) -> Vec<Vec<Op>> {
                     let mut st = Vec::new();
                     for i in 0..f + bk {
                         let back = i >= f;
-                        st.push(Step { back, sink: if i % 2 == 0 { Sink::DOWNCAST } else { Sink::DROP } });
+                        st.push(Step { back, sink: if i % 2 == 0 { Sink::DOWNCAST } else { Sink::DROP }, skip: 0 });
                     }
                     scripts.push(st.clone());
                     // forget a yielded item
@@ -1414,7 +1436,7 @@ pub fn lying_ops(case: &mut Case, n: usize, full: bool) -> Vec<Vec<Op>> {
                     }
                     for typed in [false, true] {
                         let ids: Vec<_> = (0..k).map(|_| case.fresh_id()).collect();
-                        let script = if (a + b + k) % 3 == 0 { vec![Step { back: false, sink: Sink::DROP }] } else { vec![] };
+                        let script = if (a + b + k) % 3 == 0 { vec![Step { back: false, sink: Sink::DROP, skip: 0 }] } else { vec![] };
                         ops.push(Op::Splice { v: 0, lo: Bound::Included(a), hi: Bound::Excluded(b), typed, repl: Repl::Lying(ids, delta), script, end: End::Drop });
                     }
                 }
